@@ -115,6 +115,18 @@ FragOK(e, i, j, f) ==
            ar == MaxOf(as) - MinOf(as)
        IN Abs(f[5][c] * DZ - N * AScale) <= ((ar * AScale * DZ) \div 200) + 2 * DZ + 1
 
+\* The public scan() iterator consumed through an adaptor that skips rows (e.how: "step_by" kn, "skip" kn,
+\* "nth" kn and then on): e.rows2 must be the rows of the plain run e.rows at the positions the adaptor
+\* selects - each with its own y, x-range and fragments.
+ScanAdaptAllowed(e) ==
+  LET n == Len(e.rows)
+      idx == IF e.how = "step_by"
+             THEN [j \in 1..((n + e.kn - 1) \div e.kn) |-> (j - 1) * e.kn + 1]
+             ELSE [j \in 1..(IF n > e.kn THEN n - e.kn ELSE 0) |-> j + e.kn]
+  IN /\ e.panic = 0
+     /\ Len(e.rows2) = Len(idx)
+     /\ \A j \in 1..Len(idx) : e.rows2[j] = e.rows[idx[j]]
+
 \* every fragment of every scanline (C05 judges what is there; C04 judges which are there)
 FragAllowed(e) ==
   /\ e.panic = 0
